@@ -137,6 +137,12 @@ pub fn gen_ops(rng: &mut Rng, walk: &obgzf::Walk, file_len: usize, n_ops: usize)
     starts.push(file_len as u64);
     let total = walk.total;
     let mut ops = Vec::new();
+    // deterministic preamble (every seed carries these witnesses): seek to the start of every member (the first dozen;
+    // empty members and EOF markers included) and to the end of the file, each followed by a small read
+    for &st in starts.iter().take(12).chain(starts.last()) {
+        ops.push(Op::Seek(obgzf::vpos(st, 0)));
+        ops.push(Op::Read(5));
+    }
     for _ in 0..n_ops {
         let op = match rng.below(14) {
             0..=3 => Op::Read(*rng.pick(&[0usize, 1, 2, 7, 100, 4000, 65535, 65536, 70000, 131072])),
@@ -175,15 +181,15 @@ pub fn gzi_of(walk: &obgzf::Walk) -> gzi::Index {
     gzi::Index::from(pairs)
 }
 
-/// First differing observation and its class.
-pub fn first_diff(expected: &[Obs], got: &[Obs]) -> Option<(usize, &'static str)> {
-    let i = (0..expected.len().max(got.len())).find(|&i| expected.get(i) != got.get(i))?;
-    let class = match (expected.get(i), got.get(i)) {
-        (Some(e), Some(g)) if e.1 != g.1 => "result-kind",
-        (Some(e), Some(g)) if e.3 != g.3 => "byte-count",
-        (Some(e), Some(g)) if e.2 != g.2 => "bytes",
-        (Some(e), Some(g)) if e.4 != g.4 => "virtual-position",
-        _ => "history-length",
-    };
-    Some((i, class))
+/// Class of the difference between two observations of the same operation (None = equal).
+pub fn obs_diff(e: Option<&Obs>, g: Option<&Obs>) -> Option<&'static str> {
+    match (e, g) {
+        (Some(e), Some(g)) if e == g => None,
+        (Some(e), Some(g)) if e.1 != g.1 => Some("result-kind"),
+        (Some(e), Some(g)) if e.3 != g.3 => Some("byte-count"),
+        (Some(e), Some(g)) if e.2 != g.2 => Some("bytes"),
+        (Some(e), Some(g)) if e.4 != g.4 => Some("virtual-position"),
+        (None, None) => None,
+        _ => Some("history-length"),
+    }
 }
